@@ -50,7 +50,8 @@ def keypairGen (C : G12 G) (tape : Bytes) : Err × Bytes × Nat :=
     | some Q => (.ok, natLE C.mo d ++ encXY C Q, used)
     | none => (.badParams, [], used)
 
-/-- the `gen_k:` loop of g12sSign: draw k, C = kP, r = x_C mod q, repeat while r = 0.  The C loop is
+/-- the `gen_k:` loop of g12sSign: draw k, C = kP, r = x_C mod q, repeat while r = 0; s = (rd + ke) mod q,
+repeat while s = 0 (REPAIRED behaviour, docs/C16.fix-6.diff).  The C loop is
 unbounded (every round consumes the generator, which fails after 65 rejected draws); `fuel` bounds the
 rounds of the model (`none` = not finished). -/
 def signLoop (C : G12 G) (d e : Nat) : Nat → Bytes → Nat → Option (Err × Bytes × Nat)
@@ -66,6 +67,8 @@ def signLoop (C : G12 G) (d e : Nat) : Nat → Bytes → Nat → Option (Err × 
         if r = 0 then signLoop C d e fuel rest used else
         -- s <- (rd + ke) mod q
         let s := addMod (2 ^ C.l) ((r * d) % C.q) ((k * e) % C.q) C.q
+        -- s == 0 => repeat the generation of k
+        if s = 0 then signLoop C d e fuel rest used else
         some (.ok, natBE C.mo r ++ natBE C.mo s, used)
 
 /-- g12sSign: (code, sig, octets requested); `none` = the loop did not finish within `fuel` -/
